@@ -438,6 +438,77 @@ Definition poly_parse (var l : list Z) : option (list (Z * Z)) :=
   | _ => parse_terms (S (length l)) var l
   end.
 
+(* ------------------------------------------------------------------ destinations that are not fresh *)
+(* `while (in >> x)`: several values read one after the other into the SAME variable.  rd takes the value the
+   destination holds when the reader is entered; the trace records the destination and the stream after each read. *)
+Fixpoint read_many_into {A} (rd : stream -> A -> A * stream) (n : nat) (s : stream) (cur : A) : list (A * stream) :=
+  match n with
+  | O => []
+  | S m => let '(x, s1) := rd s cur in (x, s1) :: read_many_into rd m s1 x
+  end.
+
+(* operator>>(istream&, Rational& r): every path that returns assigns r as a whole (r = Rational(num) / Rational(num,den));
+   when Rational(num, den) throws (den = 0) r keeps the value it had.  Result: (r, "threw"), stream. *)
+Definition rat_read_into (s : stream) (old : Z * Z) : (Z * Z * bool) * stream :=
+  match rat_read s with
+  | (Some q, s1) => ((q, false), s1)
+  | (None, s1) => ((old, true), s1)
+  end.
+
+Fixpoint list_set {A} (l : list A) (i : nat) (x : A) : list A :=        (* l[i] = x (nothing when i is out of range) *)
+  match l, i with
+  | [], _ => []
+  | _ :: t, O => x :: t
+  | h :: t, S j => h :: list_set t j x
+  end.
+
+(* mpz_to_ruint(a, b) on the limbs of the destination a (least significant first):
+   reset(a); for (i = 0; i < NBLIMB<K>::value; i++) { set_limb(a, c.get_ui(), i); c >>= 64; } *)
+Definition ru_reset (a : list Z) : list Z := map (fun _ => 0) a.
+Fixpoint mpz_to_ruint_loop (n i : nat) (c : Z) (a : list Z) : list Z :=
+  match n with
+  | O => a
+  | S m => mpz_to_ruint_loop m (S i) (c / 2 ^ 64) (list_set a i (Z.abs c mod 2 ^ 64))
+  end.
+Definition mpz_to_ruint_into (k : nat) (a : list Z) (c : Z) : list Z :=
+  mpz_to_ruint_loop (Nat.pow 2 k) 0 c (ru_reset a).
+(* operator>>(istream&, ruint<K>& a) with the previous limbs of a *)
+Definition ru_read_into (k : nat) (hex : bool) (s : stream) (a : list Z) : list Z * stream :=
+  let '(g, s1) := gmp_read (if hex then 16 else 10) s 0 in (mpz_to_ruint_into k a g, s1).
+(* mpz_to_rint(a, b): if (b < 0) { mpz_to_ruint(a.Value, -b); a.Value = -a.Value; } else mpz_to_ruint(a.Value, b);
+   the destination is a.Value's limbs; the result is given as the signed value *)
+Definition mpz_to_rint_into (k : nat) (a : list Z) (b : Z) : Z :=
+  if b <? 0 then ri_signed k (ri_unsigned k (- limbs_value (mpz_to_ruint_into k a (- b))))
+  else ri_signed k (limbs_value (mpz_to_ruint_into k a b)).
+Definition ri_read_into (k : nat) (hex : bool) (s : stream) (a : list Z) : Z * stream :=
+  let '(g, s1) := gmp_read (if hex then 16 else 10) s 0 in (mpz_to_rint_into k a g, s1).
+(* the limbs of an unsigned value (what a ruint<K> variable holds) *)
+Fixpoint limbs_of (n : nat) (u : Z) : list Z :=
+  match n with O => [] | S m => (u mod 2 ^ 64) :: limbs_of m (u / 2 ^ 64) end.
+
+(* Poly1Dom::read(i, P) on a P that already holds a polynomial.
+   vector::resize(n) keeps the first n entries and appends value-initialised ones;
+   init(P, Degree(deg)): P.resize(deg+1); P[i] = zero for i < sz-1; P[sz-1] = one;
+   then  for (; deg >= 0; --deg) _domain.read(i, P[deg])  stores each coefficient at its index. *)
+Definition vec_resize {E} (dflt : E) (P : list E) (n : nat) : list E := firstn n P ++ repeat dflt (n - length P).
+Fixpoint fill_zero_one {E} (zero one : E) (P : list E) : list E :=
+  match P with
+  | [] => []
+  | _ :: t => match t with [] => [one] | _ => zero :: fill_zero_one zero one t end
+  end.
+Definition poly_init_degree {E} (dflt zero one : E) (P : list E) (n : nat) : list E :=
+  fill_zero_one zero one (vec_resize dflt P n).
+Fixpoint poly_store_coeffs {E} (rd : stream -> E * stream) (n : nat) (s : stream) (P : list E) : list E * stream :=
+  match n with
+  | O => (P, s)
+  | S m => let '(c, s1) := rd s in poly_store_coeffs rd m s1 (list_set P m c)
+  end.
+Definition poly_read_into {E} (dflt zero one : E) (rd : stream -> E * stream) (s : stream) (garbage : Z) (old : list E)
+  : list E * stream :=
+  let '(deg, s1) := num_get (- 2 ^ 63) (2 ^ 63 - 1) s garbage in
+  if deg <? 0 then ([], s1)
+  else let n := S (Z.to_nat deg) in poly_store_coeffs rd n s1 (poly_init_degree dflt zero one old n).
+
 (* ------------------------------------------------------------------ Z-level entry points for extraction *)
 Definition res3 (r : Z * stream) := (fst r, rest (snd r), eofb (snd r), failb (snd r)).
 Definition x_int_read (l : list Z) (old : Z) := res3 (Integer_in (from_chars l) old).
@@ -486,3 +557,26 @@ Definition x_poly_read (bal : bool) (p : Z) (l : list Z) :=
 Definition x_poly_parse (var l : list Z) := poly_parse var l.
 Definition x_poly_degfmt (bal : bool) (p : Z) (R : list Z) :=
   poly_degfmt elt_write (map (x_init bal p) R).
+
+(* ---- sequences into one destination: (value, rest, eofbit, failbit) after each read *)
+Definition tr4 {A} (t : list (A * stream)) := map (fun x => (fst x, rest (snd x), eofb (snd x), failb (snd x))) t.
+Definition x_int_seqd (old : Z) (n : nat) (l : list Z) := tr4 (read_many_into Integer_in n (from_chars l) old).
+Definition x_rat_seqd (on od : Z) (n : nat) (l : list Z) :=
+  tr4 (read_many_into (fun s cur => rat_read_into s (fst cur)) n (from_chars l) ((on, od), false)).
+Definition x_elt_seqd (bal word : bool) (lo hi p : Z) (n : nat) (l : list Z) :=
+  tr4 (read_many_into (fun s (_ : Z) => if word then elt_read_word lo hi (x_init bal p) s 0 else elt_read (x_init bal p) s)
+                      n (from_chars l) 1).
+Definition x_ru_seqd (k : nat) (hex : bool) (old : Z) (n : nat) (l : list Z) :=
+  tr4 (map (fun x => (limbs_value (fst x), snd x))
+           (read_many_into (ru_read_into k hex) n (from_chars l) (limbs_of (Nat.pow 2 k) old))).
+(* the destination of the rint reader is the two's complement residue of the previous value *)
+Definition x_ri_seqd (k : nat) (hex : bool) (old : Z) (n : nat) (l : list Z) :=
+  tr4 (read_many_into (fun s cur => ri_read_into k hex s (limbs_of (Nat.pow 2 k) (ri_unsigned k cur))) n (from_chars l) old).
+Definition x_poly_seqd (bal : bool) (p : Z) (old : list Z) (n : nat) (l : list Z) :=
+  tr4 (read_many_into (fun s cur => poly_read_into 0 0 1 (elt_read (x_init bal p)) s 0 cur) n (from_chars l)
+                      (map (x_init bal p) old)).
+(* Poly1Dom::write, then Poly1Dom::read of that text into a destination holding `old` *)
+Definition x_poly_wr (var : list Z) (bal : bool) (p : Z) (R old : list Z) :=
+  let t := x_poly_write var bal p R in
+  let '(P, s) := poly_read_into 0 0 1 (elt_read (x_init bal p)) (from_chars t) 0 (map (x_init bal p) old) in
+  (t, (P, rest s, eofb s, failb s)).
